@@ -210,6 +210,8 @@ def run(ctx):
     ctx.attempt(r208, ctx, rep)
     rep.rule('R20.10', 'an operator that emits a row for a key it does not find in a lookup (padding it) does not return early when the lookup is empty: with a header-only table on that side every row of the other side is such a row')
     ctx.attempt(r2010, ctx, rep)
+    rep.rule('R20.11', 'the key-less simple aggregate yields its one data row on a header-only table too (C09 R9.6 imported: the row does not depend on a group being found)')
+    ctx.attempt(r2011, ctx, rep)
     from .common import check_zero_trip_dicts as _ztd
     rep.rule('R20.9', 'a plain dict that gets its entries only inside a data loop is not subscripted after the loop without a guard (KeyError when there are no data rows)')
     ctx.floor('functions_scanned_for_dicts', ctx.attempt(_ztd, ctx, rep, 'R20.9', ctx.functions(QUICK_PREFIXES if ctx.tier == 'quick' else THOROUGH_PREFIXES)) or 0, 300)
@@ -563,3 +565,17 @@ def r2010(ctx, rep):
                         else:
                             rep.held('R20.10', fn, norm(st.test), 'nothing is emitted for an absent key anyway', st)
     rep.held('R20.10', ('petl.transform', '*'), 'early exits on empty lookups', '%d early exit(s) before a probe loop' % n, None)
+
+
+# ------------------------------------------------------------------------- R20.11
+def r2011(ctx, rep):
+    from . import c09
+    from ..report import Report
+    sub = Report('C09', ctx.tier, ctx.root)
+    c09._keyless(ctx, sub)
+    n = 0
+    for o in sub.obligations:
+        n += 1
+        rep.add('R20.11', (o.module, o.qualname), o.construct, o.status, o.message, o.lineno, o.detail)
+    if not n:
+        raise AnalysisError('anchor vanished: the key-less branch of the simple aggregate')
